@@ -37,6 +37,13 @@ RAISE_KINDS = ["ValueError", "TypeError", "KeyError", "IndexError", "ZeroDivisio
 FAULTS = {
     "unknown-module": ("nosuchmodule", "foo_test", {"x": 1}, None),
     "unknown-test": ("qartod", "no_such_test", {"x": 1}, None),
+    "unknown-module-dotted": ("nope.sub", "foo_test", {"x": 1}, None),
+    "unknown-module-dotted-known-prefix": ("qartod.v2", "spike_test", {"suspect_threshold": 1}, None),
+    "unknown-module-named-like-stdlib-math": ("math", "log", {}, None),
+    "unknown-module-named-like-stdlib-time": ("time", "time", {}, None),
+    "unknown-module-named-like-numpy": ("numpy", "maximum", {}, None),
+    "unknown-module-named-like-os": ("os", "getcwd", {}, None),
+    "rejected-uncopyable-param": ("qartod", "location_test", {"bbox": "GENERATOR"}, None),
     "unknown-test-argo": ("argo", "gross_range_test", {"fail_span": [0, 1]}, None),
     "malformed-span": ("qartod", "climatology_test", {"config": [{"tspan": [0, 1, 2], "vspan": [0, 1], "period": "month"}]}, None),
     "suspect-outside-fail": ("qartod", "location_test", {"bbox": [0, 0, 1]}, None),
@@ -162,6 +169,9 @@ def run(ctx) -> None:
                                 injected.append((fn, p))
                                 continue
                             entry = FAULTS[fn][:3]
+                            if entry[2].get("bbox") == "GENERATOR":
+                                import threading
+                                entry = (entry[0], entry[1], {"bbox": (v for v in [0, 0, 1, 1]), "range_max": threading.Lock()})
                             if entry[2].get("config") == "CLIMOBJ":
                                 import ioos_qc.qartod as _q
                                 co = _q.ClimatologyConfig()
